@@ -230,7 +230,10 @@ def worker(spec):
         state.update(label=label, src=src, failed=False)
         for r in range(spec.get("runs", 3)):
             state["rseed"] = r
-            drive.drive_suspended(code, kind, spec.get("seed", 0) * 131 + r, observe,
+            from vlib import shadow as _shadow
+            run_ = _shadow.Run(spec.get("seed", 0) * 131 + r, "suspended")
+            run_.alias_exit = False   # documented limitation of the referents analysis (by-name recognition)
+            drive.drive_suspended(code, kind, spec.get("seed", 0) * 131 + r, observe, run=run_,
                                   max_obs=(30 if faults else 80))
         if nprog <= 1:
             res.sample({"what": spec["what"], "label": label, "source": src})
